@@ -266,7 +266,7 @@ def infer(*args, **kwargs):
     elif isinstance(node, (AnnAssign, Assign)):
         return infer(node.value)
     elif isinstance(node, Call):
-        if len(node.args) > 2 and node.args[1].id == "metadata":
+        if len(node.args) > 2 and getattr(node.args[1], "id", None) == "metadata":
             return "sqlalchemy_table"
     else:
         raise NotImplementedError(node)
